@@ -30,7 +30,11 @@ Section Solver.
     fail_raise : bool;                       (* failures == 'raise' *)
     errors : errmode; catch_first : bool }.
 
-  Record mdesc := mkDesc { check : list nat; endo : list nat }.   (* row numbers *)
+  Record mdesc := mkDesc { check : list nat; endo : list nat;     (* row numbers *)
+                           lags : nat; leads : nat }.              (* instance-level lags / leads *)
+
+  (* period p of an n-period span has `lags` periods before it and `leads` after it *)
+  Definition feasible (d : mdesc) (n p : nat) : bool := (lags d <=? p)%nat && (p + leads d <? n)%nat.
 
   Record mstate := mkState { vals_of : vals; status : list st; iters : list Z; log : list event }.
 
@@ -117,6 +121,8 @@ Section Solver.
     match py_pos n t with
     | None => (s, Raise IndexError)            (* t outside the span: outside every property's scope *)
     | Some p =>
+      (* feasibility guard (fix for finding #2): a period without room for the lags / leads is rejected *)
+      if negb (feasible d n p) then (s, Raise IndexError) else
       let pre : vals + exn :=
         if offset o =? 0 then inl (vals_of s)
         else let q := Z.of_nat p + offset o in
